@@ -38,6 +38,10 @@ pub enum Edit {
     Remove(String),
     RenameKey(String, String, String),
     Insert(String, String, Value),
+    /// every annotation of FRI decommitment layer k relabelled as layer 10 + k
+    RelabelLayer(usize),
+    /// every dynamic parameter set to a distinct value (its rank in key order + 1)
+    DistinctDynamicParams,
 }
 impl Edit {
     fn class(&self, doc: &Value) -> String {
@@ -62,6 +66,8 @@ impl Edit {
             Edit::Remove(p) => format!("remove:{}", jw::path_class(&jw::parse_path(p))),
             Edit::RenameKey(p, _, _) => format!("rename-key:{}", p),
             Edit::Insert(p, _, _) => format!("insert:{}", p),
+            Edit::RelabelLayer(_) => "relabel-fri-layer".into(),
+            Edit::DistinctDynamicParams => "distinct-dynamic-params".into(),
         }
     }
     fn to_json(&self) -> Value {
@@ -76,6 +82,8 @@ impl Edit {
             Edit::Remove(p) => json!({"e": "remove", "path": p}),
             Edit::RenameKey(p, a, b) => json!({"e": "rename-key", "path": p, "from": a, "to": b}),
             Edit::Insert(p, k, v) => json!({"e": "insert", "path": p, "key": k, "value": v}),
+            Edit::RelabelLayer(k) => json!({"e": "relabel-layer", "k": k}),
+            Edit::DistinctDynamicParams => json!({"e": "distinct-dynamic-params"}),
         }
     }
     fn from_json(v: &Value) -> Option<Edit> {
@@ -92,6 +100,8 @@ impl Edit {
             "remove" => Edit::Remove(s("path")?),
             "rename-key" => Edit::RenameKey(s("path")?, s("from")?, s("to")?),
             "insert" => Edit::Insert(s("path")?, s("key")?, v.get("value")?.clone()),
+            "relabel-layer" => Edit::RelabelLayer(u("k")?),
+            "distinct-dynamic-params" => Edit::DistinctDynamicParams,
             _ => return None,
         })
     }
@@ -159,6 +169,31 @@ impl Edit {
             }
             Edit::Insert(p, k, v) => {
                 jw::get_mut(&mut d, &jw::parse_path(p))?.as_object_mut()?.insert(k.clone(), v.clone());
+            }
+            Edit::RelabelLayer(k) => {
+                let from = format!("/Decommitment/Layer {}:", k);
+                let to = format!("/Decommitment/Layer {}:", 10 + k);
+                let mut n = 0;
+                for a in d["annotations"].as_array_mut()? {
+                    if let Some(s) = a.as_str() {
+                        if s.contains(&from) {
+                            *a = Value::String(s.replace(&from, &to));
+                            n += 1;
+                        }
+                    }
+                }
+                if n == 0 {
+                    return None;
+                }
+            }
+            Edit::DistinctDynamicParams => {
+                let o = d["public_input"]["dynamic_params"].as_object_mut()?;
+                if o.is_empty() {
+                    return None;
+                }
+                for (i, (_, v)) in o.iter_mut().enumerate() {
+                    *v = json!(i as u64 + 1);
+                }
             }
         }
         Some(d)
@@ -297,6 +332,12 @@ fn structure_edits(doc: &Value) -> Vec<Edit> {
             out.push(Edit::Set("public_input.dynamic_params".into(), json!({})));
         }
     }
+    // FRI decommitment layers relabelled (layer k -> 10 + k): the data of an undeclared layer must not
+    // leak into a declared one
+    for k in 1..n_steps {
+        out.push(Edit::RelabelLayer(k));
+    }
+    out.push(Edit::DistinctDynamicParams);
     // nonce values
     if let Some(ann) = doc["annotations"].as_array() {
         if let Some((i, s)) = ann.iter().enumerate().find(|(_, a)| a.as_str().map(|s| s.contains("Proof of Work: POW: Data(")).unwrap_or(false)) {
